@@ -27,16 +27,35 @@ Definition unpack (l : list int) : string :=
 (* The harmless string placed in the position under test when the baseline SQL is produced (the
    "marker") travels with each baseline: "zqxmark", or a harmless non-literal regex for regex positions. *)
 
-(* The statement of a case is transported as pieces: bytes copied from the baseline statement
-   (offset, length) and literal bytes.  [build] reassembles the exact text before it is lexed. *)
-Inductive seg : Type := Copy (off len : int) | Lit (bytes : list int).
+(* A statement is transported relative to its baseline: both share the first [p] and the last [s] bytes of
+   the baseline (chosen per baseline by the driver), the case carries only the bytes in between.  The
+   statement that is lexed is exactly  prefix ++ middle ++ suffix ; the tokens of the prefix and, when the lexer
+   is in the same state at the start of the suffix as it was for the baseline, those of the suffix are shared
+   (ChLexProofs.lex_three, st_eqb_eq: the result is lex of the whole statement). *)
+Record pbase : Type := {
+  pb_marker : string;     (* the harmless value of the baseline, as it shows inside literals *)
+  pb_pre : string; pb_mid : string; pb_suf : string;
+  pb_q0 : st; pb_o0 : list tok;       (* after QN pre, outs QN pre *)
+  pb_qb : st; pb_sufT : list tok;     (* state at the start of the suffix for the baseline, run of the suffix from it *)
+  pb_midT : list tok;                 (* outs q0 mid of the baseline *)
+  pb_toks : list tok;                 (* lex of the whole baseline *)
+  pb_err : bool                       (* has_err pb_toks *)
+}.
 Definition nat_of_int (i : int) : nat := Z.to_nat (Uint63.to_Z i).
-Definition build (base : string) (segs : list seg) : string :=
-  fold_right (fun sg acc =>
-     match sg with
-     | Copy o l => substring (nat_of_int o) (nat_of_int l) base ++ acc
-     | Lit b => unpack b ++ acc
-     end) EmptyString segs.
+Definition mk_pbase (marker sql : string) (p s : nat) : pbase :=
+  let n := String.length sql in
+  let pre := substring 0 p sql in
+  let mid := substring p (n - p - s) sql in
+  let suf := substring (n - s) s sql in
+  let '(q0, o0) := trace QN pre in
+  let '(qb, midT) := trace q0 mid in
+  let sufT := run qb suf in
+  let toks := (o0 ++ midT ++ sufT)%list in
+  {| pb_marker := marker; pb_pre := pre; pb_mid := mid; pb_suf := suf; pb_q0 := q0; pb_o0 := o0;
+     pb_qb := qb; pb_sufT := sufT; pb_midT := midT; pb_toks := toks; pb_err := has_err toks |}.
+Definition case_toks (b : pbase) (mid : string) : list tok :=
+  let q := after (pb_q0 b) mid in
+  (pb_o0 b ++ outs (pb_q0 b) mid ++ (if st_eqb q (pb_qb b) then pb_sufT b else run q (pb_suf b)))%list.
 
 Inductive mode : Type :=
 | MRaw      (* c_sql is the output of sql.NewStringVal(want).String() alone *)
@@ -48,7 +67,7 @@ Record case : Type := {
   c_mode : mode;
   c_want : list int;      (* packed: the bytes the request means *)
   c_base : Z;             (* index of the baseline (marker, statement): same site, marker in the same position *)
-  c_sql : list seg        (* the statement the real code produced, as pieces *)
+  c_mid : list int        (* packed: the statement the real code produced is pb_pre ++ this ++ pb_suf *)
 }.
 
 Fixpoint contains (needle hay : string) : bool :=
@@ -90,40 +109,55 @@ Definition V_LIKE : Z := 5.          (* the LIKE pattern at the hole does not me
 Definition V_MODEL : Z := 7.         (* the text the model predicts (quote want / do_like_lit want) is not in the statement *)
 Definition V_BASE : Z := 8.          (* the baseline statement itself does not lex: harness problem *)
 
-Definition verdict (bases : list (string * string * list tok)) (c : case) : Z :=
+Definition dummy_base : pbase := mk_pbase EmptyString EmptyString 0 0.
+
+Definition verdict (bases : list pbase) (c : case) : Z :=
   let want := unpack (c_want c) in
-  let '(marker, bsql, tb) := nth (Z.to_nat (c_base c)) bases (EmptyString, EmptyString, [TErr]) in
-  let sql := build bsql (c_sql c) in
+  let b := nth (Z.to_nat (c_base c)) bases dummy_base in
+  let mid := unpack (c_mid c) in
+  let marker := pb_marker b in
+  (* is the text x, present in the baseline, also present in the statement (looked for around the hole first) *)
+  let present (xb x : string) :=
+      negb (contains xb (pb_mid b) || contains xb (pb_pre b ++ pb_mid b ++ pb_suf b))
+      || contains x mid || contains x (pb_pre b ++ mid ++ pb_suf b) in
   match c_mode c with
   | MRaw =>
-      if negb (String.eqb (quote want) sql && String.eqb (quote_seq want) sql) then V_MODEL
-      else if list_eqb tok_eqb (lex sql) [TStr want] then V_OK else V_LITERAL
+      if negb (String.eqb (quote want) mid && String.eqb (quote_seq want) mid) then V_MODEL
+      else if list_eqb tok_eqb (lex mid) [TStr want] then V_OK else V_LITERAL
   | m =>
-      let th := lex sql in
-      if has_err tb then V_BASE
+      (* When the lexer reaches the shared suffix in the state it had for the baseline, the two token lists
+         are  o0 ++ middle ++ sufT  with the same o0 and sufT: comparing the middles compares the lists
+         (app_inv_head / app_inv_tail), and errors in o0/sufT are the baseline's. *)
+      let '(q, om) := trace (pb_q0 b) mid in
+      let fast := st_eqb q (pb_qb b) in
+      let tb := if fast then pb_midT b else pb_toks b in
+      let th := if fast then om else (pb_o0 b ++ om ++ run q (pb_suf b))%list in
+      if pb_err b then V_BASE
       else if has_err th then V_LEXERR
       else if negb (list_eqb tok_eqb (skeleton th) (skeleton tb)) then V_SKELETON
       else match m with
            | MLike =>
                if negb (all2 (lit_like_ok marker want) (lits tb) (lits th)) then V_LIKE
-               else if negb (contains (do_like_lit marker) bsql) || contains (do_like_lit want) sql then V_OK else V_MODEL
+               else if present (do_like_lit marker) (do_like_lit want) then V_OK else V_MODEL
            | _ =>
                if negb (all2 (lit_plain_ok marker want) (lits tb) (lits th)) then V_LITERAL
-               else if negb (contains (quote marker) bsql) || contains (quote want) sql then V_OK else V_MODEL
+               else if present (quote marker) (quote want) then V_OK else V_MODEL
            end
   end.
 
-Definition verdicts (bases : list (list int * list int)) (cases : list case) : list (Z * Z) :=
-  let tbs := map (fun b => let q := unpack (snd b) in (unpack (fst b), q, lex q)) bases in
+(* a baseline as sent by the driver: marker, statement, shared prefix and suffix lengths *)
+Definition rbase : Type := (list int * list int * int * int)%type.
+Definition verdicts (bases : list rbase) (cases : list case) : list (Z * Z) :=
+  let tbs := map (fun b : rbase => let '(m, q, p, s) := b in mk_pbase (unpack m) (unpack q) (nat_of_int p) (nat_of_int s)) bases in
   flat_map (fun c => let v := verdict tbs c in if Z.eqb v V_OK then [] else [(c_id c, v)]) cases.
 
 Definition ids_with (p : Z -> bool) (r : list (Z * Z)) : list Z :=
   flat_map (fun iv => if p (snd iv) then [fst iv] else []) r.
 
 (* model output differs from the implementation's *)
-Definition mismatches (bases : list (list int * list int)) (cases : list case) : list Z :=
+Definition mismatches (bases : list rbase) (cases : list case) : list Z :=
   ids_with (fun v => Z.eqb v V_MODEL || Z.eqb v V_BASE) (verdicts bases cases).
 (* the property's oracle rejects the implementation's observed statement *)
-Definition spec_violations (bases : list (list int * list int)) (cases : list case) : list Z :=
+Definition spec_violations (bases : list rbase) (cases : list case) : list Z :=
   ids_with (fun v => Z.eqb v V_LEXERR || Z.eqb v V_SKELETON || Z.eqb v V_LITERAL || Z.eqb v V_LIKE)
            (verdicts bases cases).
